@@ -309,7 +309,7 @@ def run(chk: Check, tier: str):
     tlc.require_ok(res, "MC_Budget")
     chk.add_tlc("MC_Budget", res, "all budget triples over {0,1,5}s x preprocessing durations x expiry placements")
     # ---- fault enumeration on the real code
-    n = 14 if tier == "quick" else 120
+    n = 14 if tier == "quick" else 400
     scen = []
     i = 0
     while len(scen) < n and i < 10 * n:
